@@ -298,4 +298,54 @@ theorem asyncWrites_orig (M : List Delivery) (r : List Nat) (c : Nat) (h : Heap)
         exact write_orig_of_ro h .orig v hro
       · exact absurd (hall c' hr) hne
 
+
+/-! ### order-independent summary -/
+
+theorem mutDeliveries_origCount (L : Bool) (m : List Nat) (k : Nat) :
+    ((mutDeliveries L m k).filter (fun d => decide (d.obj = .orig))).length = if L && !m.isEmpty then 1 else 0 := by
+  induction m generalizing k with
+  | nil => simp [mutDeliveries]
+  | cons c rest ih =>
+    cases rest with
+    | nil => cases L <;> simp [mutDeliveries]
+    | cons c' rest' =>
+      have := ih (k + 1)
+      simp only [mutDeliveries, List.filter_cons] at this ⊢
+      simp only [reduceCtorEq, decide_false, Bool.false_eq_true, if_false]
+      simpa using this
+
+/-- in the mutable phase nobody is handed a read-only object (the original goes to a mutating consumer only when it is mutable) -/
+theorem phaseA_seen_ro (syncW : Nat → Option Nat) (L : Bool) (m : List Nat) (k : Nat) (h : Heap)
+    (hL : L = true → h.origRO = false) : ∀ s ∈ (callAll syncW h (mutDeliveries L m k)).2, s.ro = false := by
+  induction m generalizing k h with
+  | nil => simp [mutDeliveries, callAll]
+  | cons c rest ih =>
+    cases rest with
+    | nil =>
+      cases L with
+      | true =>
+        simp only [mutDeliveries, callAll, if_true, List.mem_singleton, forall_eq]
+        simp only [call]; cases syncW c <;> simp [hL rfl]
+      | false =>
+        simp only [mutDeliveries, callAll, List.mem_singleton, forall_eq]
+        simp only [call]; cases syncW c <;> simp
+    | cons c' rest' =>
+      have hc := call_clone syncW h c k
+      have := ih (k + 1) (call syncW h ⟨c, .clone k⟩).1 (by rw [hc.2.2]; exact hL)
+      simp only [mutDeliveries, callAll, List.mem_cons, forall_eq_or_imp] at this ⊢
+      refine ⟨?_, this⟩
+      simp only [call]; cases syncW c <;> simp
+
+/-- in the read-only phase everybody sees the original's flag as it is after the marking -/
+theorem phaseB_seen_ro (syncW : Nat → Option Nat) (r : List Nat) (h : Heap) :
+    ∀ s ∈ (callAll syncW h (roDeliveries r)).2, s.ro = h.origRO := by
+  induction r generalizing h with
+  | nil => simp [roDeliveries, callAll]
+  | cons c rest ih =>
+    have h2 := call_orig_atCall syncW h c
+    have := ih (call syncW h ⟨c, .orig⟩).1
+    simp only [roDeliveries, List.map_cons, callAll, List.mem_cons, forall_eq_or_imp] at this ⊢
+    refine ⟨?_, fun s hs => by rw [this s hs, h2.2]⟩
+    simp only [call]; cases syncW c <;> simp
+
 end OtelVerif.C06
